@@ -1013,6 +1013,19 @@ func TestVerifPool(t *testing.T) {
 				sc = append(sc, vt.M{"a": "release", "p": q}, vt.M{"a": "alloc", "p": q}, vt.M{"a": "wait", "us": rng.Intn(300)}, vt.M{"a": "cancel", "p": q})
 			}
 		}
+		if k%4 == 3 {
+			// a request arriving just when a freshly assigned address lands steals it from a queued waiter whose job was already
+			// popped; afterwards everything is released and the balancer may give the interface up while that waiter still waits
+			c := vt.Map(sc[0]["conf"])
+			c["batch"], c["maxIdle"], c["minIdle"], c["pre"], c["trunk"] = 1, 0, 0, 0, false
+			sc = append(sc, vt.M{"a": "uninhibit"}, vt.M{"a": "settle"})
+			for j := 0; j < 2; j++ {
+				sc = append(sc, vt.M{"a": "alloc", "p": 1}, vt.M{"a": "alloc", "p": 2}, vt.M{"a": "wait", "ms": 285 + rng.Intn(60)}, vt.M{"a": "alloc", "p": 3},
+					vt.M{"a": "wait", "ms": 5 + rng.Intn(40)}, vt.M{"a": "alloc", "p": 4}, vt.M{"a": "wait", "ms": 350},
+					vt.M{"a": "release", "p": 1}, vt.M{"a": "release", "p": 2}, vt.M{"a": "release", "p": 3}, vt.M{"a": "release", "p": 4},
+					vt.M{"a": "syncpool"}, vt.M{"a": "wait", "ms": 30 + rng.Intn(60)}, vt.M{"a": "syncpool"}, vt.M{"a": "wait", "ms": 400})
+			}
+		}
 		if k%3 == 2 {
 			// shrink-heavy tail: everything is released and the balancer runs, so idle addresses / empty interfaces get disposed
 			vt.Map(sc[0]["conf"])["maxIdle"] = vt.Int(vt.Map(sc[0]["conf"])["minIdle"])
